@@ -299,8 +299,17 @@ pub fn run(ctx: &Ctx, replay: Option<&J>) -> i32 {
             }
         }
     }
+    // before every list, the same thread evaluates a *failing* aggregate call in a session of its own
+    // (a rotating one of seven): nothing of a failed call - numbers read before the offending argument,
+    // a half-filled buffer - may show in a later result
+    const POISON: [&str; 7] = [
+        "median([100, 200, \"x\"])", "percentile([1000000, true], 50)", "sum(1, 2, \"a\")", "max([5, null])", "avg(7, 9, [1])", "prod([3, 4, \"z\"])", "min(2, -9, {})",
+    ];
+    let poison_ix = std::sync::atomic::AtomicUsize::new(0);
     let results: Vec<Res> = par_map(&lists, |l| {
         let src = program(l);
+        let k = poison_ix.fetch_add(1, std::sync::atomic::Ordering::Relaxed);
+        let _ = eval_fresh(POISON[k % POISON.len()]);
         match eval_fresh(&src) {
             Outcome::Ok(c) => match parse_num_list(&c) {
                 Some(v) if v.len() == 19 + PS.len() => Res { list: l.clone(), vals: Some(v), err: None },
@@ -364,7 +373,7 @@ pub fn run(ctx: &Ctx, replay: Option<&J>) -> i32 {
     finish(
         ctx,
         "exploration",
-        "all number lists of length 1..4 (quick) / 1..5 (thorough) over a 9-value alphabet plus periodic extensions to 6..50, a rounding family and lists of 12..64 (thorough 8..128) distinct values in every affine arrangement i -> (a*i+b) mod n, and a size ladder (257, 1025; thorough 100..10001 around powers of two and ten) for six strides; per list one program evaluating sum/prod/avg/min/max/median in the three calling conventions and percentile at 13 p values; references computed by the harness on the same doubles; permutation invariance by grouping lists by multiset; distinct = distinct lists",
+        "all number lists of length 1..4 (quick) / 1..5 (thorough) over a 9-value alphabet plus periodic extensions to 6..50, a rounding family and lists of 12..64 (thorough 8..128) distinct values in every affine arrangement i -> (a*i+b) mod n, and a size ladder (257, 1025; thorough 100..10001 around powers of two and ten) for six strides; per list one program evaluating sum/prod/avg/min/max/median in the three calling conventions and percentile at 13 p values; references computed by the harness on the same doubles; permutation invariance by grouping lists by multiset; each evaluation preceded, on the same thread, by a failing aggregate call in a session of its own; distinct = distinct lists",
         true,
         None,
     )
